@@ -354,14 +354,14 @@ def stepApi (st : St) : Api → Option St
     if cells.isEmpty then none
     let (ts, vs) ← splitPairs cells
     let (m0, _) := alloc st.mem .lib (.array vs)        -- rawList
-    let (m1, a) := setNew m0 .lib
+    let (m1, a) := setNew m0 .helper
     let m2 ← setAddAll equivW m1 a vs hs
-    pure ((st.withMem m2).pushVal (.tset (elemType ts)) (.set a))
+    pure ((st.withMem (publish m2 a)).pushVal (.tset (elemType ts)) (.set a))
   -- SetValFromValueSet(s): rawVal := s.s.Copy()
   | .setValFromValueSet g => do
     let .pair ety (.set a) ← st.go g | none
-    let (m, a') ← setCopy st.mem .lib a
-    pure ((st.withMem m).pushVal (.tset ety) (.set a'))
+    let (m, a') ← setCopy st.mem .helper a
+    pure ((st.withMem (publish m a')).pushVal (.tset ety) (.set a'))
   -- AsBigFloat: new(big.Float).Copy(val.v)
   | .asBigFloat v => do
     let (_, .num a) ← st.val v | none
@@ -772,10 +772,10 @@ def respectful (st : St) : HeapOp → Bool
       | some (.set a) => setOwned st.mem a
       | _ => true) &&
     (match st.go p with
-      | some (.slice arr _ _ _) => ownerOf st.mem arr == some .caller || frozenObj st.mem arr
+      | some (.slice arr _ _ _) => ownerOf st.mem arr == some .caller || ownerOf st.mem arr == some .lib
       | _ => true)
   | .api (.tupleType g) => match st.go g with
-    | some (.slice arr _ _ _) => ownerOf st.mem arr == some .caller || frozenObj st.mem arr
+    | some (.slice arr _ _ _) => ownerOf st.mem arr == some .caller || ownerOf st.mem arr == some .lib
     | _ => true
   | .api (.walkNext w) => match st.wks[w]? with
     | some wk => walkerOwned st.mem wk
